@@ -148,12 +148,12 @@ impl StaticSound {
 	fn seek_by(&mut self, amount: f64) {
 		let current_position = self.transport.position as f64 / self.sample_rate as f64;
 		let position = current_position + amount;
-		let index = (position * self.sample_rate as f64) as usize;
+		let index = (position * self.sample_rate as f64).round() as usize;
 		self.seek_to_index(index);
 	}
 
 	fn seek_to(&mut self, position: f64) {
-		let index = (position * self.sample_rate as f64) as usize;
+		let index = (position * self.sample_rate as f64).round() as usize;
 		self.seek_to_index(index);
 	}
 
